@@ -78,5 +78,11 @@ REGISTRY = {
                     "perturbations (add, add-with-same-names, rename, change, remove an unrelated module; permute the module's own declarations); each pair is realised as two real runs and C18_Trace judges "
                     "byte identity of the observed module's stub, or equality of the bag of declaration blocks and of the header for permutations.",
             "ref": "DESIGN.md section 7 C18", "note": BASE_NOTE, "technique": TECH},
+    "C02": {"text": "spec/SdsGrammar.tla is an LL(1) push-down recogniser of the stub grammar over token classes (one action per token; keywords used as names have no transition), checked by TLC "
+                    "against its own accept/reject suite; spec/Hostile.tla models escaping of hostile text and TLC checks that escaped strings scan closed and documentation cannot close its comment for every "
+                    "symbol sequence up to length 3, emitting the sequences; spec/Ident.tla provides the 33-keyword table. The corpora (every keyword and its -nc spellings in 13 declaration/path positions, "
+                    "258 hostile strings as defaults and Literal values, 258 hostile docstrings x 4 styles) are run and the token classes of every stub file are fed through the recogniser in TLC (C02_Trace); "
+                    "the 44 upstream snapshot stubs calibrate it.",
+            "ref": "DESIGN.md section 7 C02", "note": "Trusted: TLC; the hand-written lexer harness/sds.py; 'valid' means accepted by SdsGrammar.tla (no reference Safe-DS parser is available offline); raw newlines and '{{' in strings are accepted.", "technique": TECH},
 }
 NOT_APPLICABLE = {}
